@@ -296,13 +296,27 @@ impl ValidatorParser {
                             if ch == quote_char {
                                 // Found closing quote
                                 let message = &rest[..i];
-                                // Unescape common escape sequences
-                                let unescaped = message
-                                    .replace("\\\"", "\"")
-                                    .replace("\\'", "'")
-                                    .replace("\\n", "\n")
-                                    .replace("\\t", "\t")
-                                    .replace("\\\\", "\\");
+                                // Unescape common escape sequences, left to right: an escaped
+                                // backslash never starts another escape (two backslashes and a `t` are a
+                                // backslash and a `t`, not a tab)
+                                let mut unescaped = String::with_capacity(message.len());
+                                let mut chars = message.chars();
+                                while let Some(c) = chars.next() {
+                                    if c != '\\' {
+                                        unescaped.push(c);
+                                        continue;
+                                    }
+                                    match chars.next() {
+                                        Some('n') => unescaped.push('\n'),
+                                        Some('t') => unescaped.push('\t'),
+                                        Some(c @ ('"' | '\'' | '\\')) => unescaped.push(c),
+                                        Some(other) => {
+                                            unescaped.push('\\');
+                                            unescaped.push(other);
+                                        }
+                                        None => unescaped.push('\\'),
+                                    }
+                                }
                                 return Some(unescaped);
                             }
                         }
